@@ -235,6 +235,8 @@ class Interp:
             return len(v) > 0
         if isinstance(v, Arr):
             raise Unsupported("truth value of an array")
+        if isinstance(v, T.XR):
+            raise Unsupported("truth value of a possibly-NaN number")
         return True
 
     # ------------------------------------------------------------------ names
@@ -431,7 +433,7 @@ class Interp:
             try:
                 a = self.ev(node.body, st)
                 b = self.ev(node.orelse, st)
-                if (T.is_num(a) or T.is_boolish(a)) and (T.is_num(b) or T.is_boolish(b)) and len(st.pc) == snap_pc:
+                if T.is_val(a) and T.is_val(b) and len(st.pc) == snap_pc:
                     return T.ite(c, a, b)
             except Unsupported:
                 pass
@@ -464,7 +466,7 @@ class Interp:
             if is_sym(v) and z3.is_bool(v):
                 return z3.Not(v)
             return not self.truth(st, v)
-        if isinstance(v, Arr):
+        if isinstance(v, (Arr, self.lib.MaskedSel)):
             if isinstance(node.op, ast.USub):
                 return self.lib.ew(st, T.neg, v)
             if isinstance(node.op, ast.Invert):
@@ -473,7 +475,7 @@ class Interp:
         if isinstance(v, Obj):
             name = {"USub": "__neg__", "Invert": "__invert__", "UAdd": "__pos__"}[type(node.op).__name__]
             return self.call_method(st, v, name, [], {})
-        if isinstance(node.op, ast.USub):
+        if isinstance(node.op, ast.USub) and T.is_val(v):
             return T.neg(v)
         if isinstance(node.op, ast.UAdd):
             return v
@@ -499,14 +501,17 @@ class Interp:
             if isinstance(a, Obj):
                 return self.call_method(st, a, f"__{self.DUNDER[opname]}__", [b], {})
             return self.call_method(st, b, f"__r{self.DUNDER[opname]}__", [a], {})
+        arrish = (Arr, self.lib.MaskedSel)
         if opname in ("BitAnd", "BitOr"):
             f = T.land if opname == "BitAnd" else T.lor
-            if isinstance(a, Arr) or isinstance(b, Arr):
+            if isinstance(a, arrish) or isinstance(b, arrish):
                 return self.lib.ew(st, f, a, b, sort="bool")
             if T.is_boolish(a) and T.is_boolish(b):
                 return f(a, b)
             raise Unsupported("bitwise operator on numbers")
-        if isinstance(a, Arr) or isinstance(b, Arr):
+        if isinstance(a, arrish) or isinstance(b, arrish):
+            if opname not in self.BINOPS:
+                raise Unsupported(f"operator {opname} on arrays")
             return self.lib.ew(st, self.BINOPS[opname], a, b)
         if isinstance(a, str) and isinstance(b, str) and opname == "Add":
             return a + b
@@ -518,7 +523,7 @@ class Interp:
             return a * b if isinstance(a, tuple) else st.alloc(list(a) * b)
         if opname not in self.BINOPS:
             raise Unsupported(f"operator {opname}")
-        if not (T.is_num(a) or T.is_boolish(a)) or not (T.is_num(b) or T.is_boolish(b)):
+        if not T.is_val(a) or not T.is_val(b):
             r = self.lib.special_binop(self, st, opname, a, b)
             if r is not NotImplemented:
                 return r
@@ -548,13 +553,13 @@ class Interp:
             r = self.contains(st, b, a)
             return r if opn == "In" else T.lnot(r)
         op = self.CMPS[opn]
-        if isinstance(a, Arr) or isinstance(b, Arr):
+        if isinstance(a, (Arr, self.lib.MaskedSel)) or isinstance(b, (Arr, self.lib.MaskedSel)):
             return self.lib.ew(st, lambda x, y: T.cmp(op, x, y), a, b, sort="bool")
         if isinstance(a, Obj) or isinstance(b, Obj):
             r = self.lib.obj_compare(self, st, op, a, b)
             if r is not NotImplemented:
                 return r
-        if (T.is_num(a) or T.is_boolish(a)) and (T.is_num(b) or T.is_boolish(b)):
+        if T.is_val(a) and T.is_val(b):
             return T.cmp(op, a, b)
         if a is None or b is None:
             if op == "==":
@@ -678,6 +683,8 @@ class Interp:
         idx = st.deref(idx) if isinstance(idx, Ref) and isinstance(st.deref(idx), Arr) else idx
         if isinstance(o, Arr):
             return self.lib.arr_getitem(self, st, o, idx)
+        if isinstance(o, self.lib.MaskedSel):
+            return self.lib.sel_getitem(self, st, o, idx)
         if isinstance(o, dict):
             k = st.deref(idx)
             if k not in o:
@@ -1152,6 +1159,11 @@ class Interp:
             if self.ctx:
                 self.ctx.note_write(obj)
             return
+        if isinstance(o, self.lib.MaskedSel):
+            if not isinstance(obj, Ref):
+                raise Unsupported("store into a temporary selection")
+            st.heap[obj.id] = self.lib.sel_setitem(self, st, o, idx, v)
+            return
         if isinstance(o, dict):
             k = st.deref(idx)
             if is_sym(k):
@@ -1206,6 +1218,8 @@ class Interp:
             return summarise_for(self, node, st, itv.lo, itv.hi)
         if man is not None and isinstance(itv, self.lib.RangeVal):
             return self.loop_invariant(node, st, man, itv.lo, itv.hi)
+        if isinstance(itv, self.lib.EnumVal):
+            return self.for_enumerate(node, st, itv, man)
         items = self.iterate(st, itv)
         self.stats["loops_unrolled"] += 1
         broke = False
@@ -1220,6 +1234,29 @@ class Interp:
                 continue
         if not broke:
             self.exec_block(node.orelse, st)
+
+    def for_enumerate(self, node, st, ev, man):
+        """`for i, x in enumerate(a)` with len(a) symbolic  ==  `for i in range(len(a)): x = a[i]; ...`"""
+        t = node.target
+        if not (isinstance(t, (ast.Tuple, ast.List)) and len(t.elts) == 2 and all(isinstance(e, ast.Name) for e in t.elts)):
+            raise Unsupported("enumerate over a symbolic-length array needs a `for i, x in` target")
+        if man is not None:
+            raise Unsupported("loop invariant on an enumerate loop")
+        hidden = f"__enum_src_{id(node)}"
+        st.env.vars[hidden] = ev.src
+        first = ast.Assign(targets=[ast.Name(id=t.elts[1].id, ctx=ast.Store())],
+                           value=ast.Subscript(value=ast.Name(id=hidden, ctx=ast.Load()),
+                                               slice=ast.Name(id=t.elts[0].id, ctx=ast.Load()), ctx=ast.Load()))
+        synth = ast.For(target=ast.Name(id=t.elts[0].id, ctx=ast.Store()), iter=node.iter,
+                        body=[first] + list(node.body), orelse=list(node.orelse), type_comment=None)
+        ast.copy_location(first, node)
+        ast.copy_location(synth, node)
+        ast.fix_missing_locations(synth)
+        from .loops import summarise_for
+        try:
+            return summarise_for(self, synth, st, 0, st.deref(ev.src).shape[0])
+        finally:
+            st.env.vars.pop(hidden, None)
 
     def loop_invariant(self, node, st, man, lo, hi):
         from .loops import invariant_loop
